@@ -221,6 +221,14 @@ func (s *Solver) Check() string {
 		s.send(fmt.Sprintf("(set-option :timeout %d)\n(check-sat)\n", s.fastMs))
 		r = s.readLine()
 		s.lastOne = false
+		if strings.HasPrefix(r, "(error") {
+			// an error line instead of an answer: a command sent after an earlier timeout was dropped
+			// ("push canceled") and the process is out of step. Start a fresh process, replay the
+			// assertion stack and ask again; only a second failure makes the query inconclusive.
+			s.rebuild()
+			s.send(fmt.Sprintf("(set-option :timeout %d)\n(check-sat)\n", s.fastMs))
+			r = s.readLine()
+		}
 		if r == "unknown" {
 			s.Fallbacks++
 			s.send(fmt.Sprintf("(set-option :timeout %d)\n(check-sat-using qfaufbv)\n", s.timeout/4))
